@@ -380,19 +380,16 @@ pub fn process<I: BufRead, O: Write>(
                         while !done {
                             let s3 = &remaining[cursor..];
                             if let Some((left, _)) = s3.split_once('"') {
-                                if !left.ends_with("\\") {
+                                // The quote is escaped when it follows an odd number of
+                                // backslashes (an even number is a run of escaped backslashes)
+                                let backslashes =
+                                    left.chars().rev().take_while(|&c| c == '\\').count();
+                                if backslashes % 2 == 0 {
                                     found = true;
                                     done = true;
                                     cursor += left.len();
                                 } else {
-                                    // Let's check it's not an escaped backslash
-                                    if left.ends_with("\\\\") {
-                                        found = true;
-                                        done = true;
-                                        cursor += left.len();
-                                    } else {
-                                        cursor += left.len() + 1;
-                                    }
+                                    cursor += left.len() + 1;
                                 }
                             } else {
                                 done = true;
